@@ -101,6 +101,7 @@ type Unit struct {
 	bv      bool
 	sweep   bool // schematic mode: inline helpers with loops, abstract what is unknown
 	addrs   map[string]string
+	top0    string // $top at entry of the unit's function
 	axHeap  *Heap
 	modelTerms []string
 }
